@@ -76,7 +76,7 @@ def coq_view(v, case):
              cbool(v["vok"]), cZ(v["vca"]), vkeys))
 
 
-BROKEN = ("{| k_steps := [(ODelete \"x\", {| t_valid := true; t_delivered := true; t_res := 3; t_hosts := [] |})]; "
+BROKEN = ("{| k_steps := [(ODelete \"x\", {| t_valid := true; t_delivered := true; t_res := 3; t_hosts := []; t_x := [] |})]; "
           "k_probes := {| pb_eps := []; pb_schemas := []; pb_verbs := []; pb_hosts := [] |}; k_clusters := []; "
           "k_latest := []; k_obs := {| ob_hot := []; ob_fresh := [absent_view]; ob_fresh_res := [] |} |}")
 
@@ -86,7 +86,7 @@ def coq_case(case, obs):
         return BROKEN
     steps = []
     for p, s in zip(case["ops"], obs["steps"]):
-        steps.append(cpair(coq_op(p), "{| t_valid := %s; t_delivered := %s; t_res := %s; t_hosts := [] |}" %
+        steps.append(cpair(coq_op(p), "{| t_valid := %s; t_delivered := %s; t_res := %s; t_hosts := []; t_x := [] |}" %
                            (cbool(s["valid"]), cbool(s["delivered"]), cZ(RESCODE.get(s["res"], 3)))))
     probes = ("{| pb_eps := %s; pb_schemas := %s; pb_verbs := %s; pb_hosts := %s |}" %
               (clist([cZ(e) for e in range(c10gen.NEP)]), clist([cstr(s) for s in case["schemas"]]),
